@@ -52,7 +52,6 @@ theorem lj_grad (eps sig r : ℝ) (hr : r ≠ 0) : HasDerivAt (V eps sig) (-(F e
 theorem ljCoefR_eq (sig eps r : ℝ) (hr : r ≠ 0) : ljCoefR sig eps (r ^ 2) * r = F eps sig r := by
   unfold ljCoefR F
   field_simp
-  ring
 
 /-- derivative of `t ↦ √(t² + c)` -/
 theorem hasDerivAt_radius (t c : ℝ) (hpos : 0 < t ^ 2 + c) :
